@@ -15,6 +15,9 @@ import (
 type c04Case struct {
 	Cfg     LimitCfg `json:"cfg"`
 	Samples []Sample `json:"samples"`
+	// BulkN (windowed wrappers): that many quiet samples (in-flight 1: the window cannot close) come first, so that
+	// the first window folds tens of thousands of samples - counts around 2^16 and 2^17 on purpose
+	BulkN int `json:"bulk_n,omitempty"`
 }
 
 func genC04(t *rapid.T) c04Case {
@@ -49,6 +52,14 @@ func genC04(t *rapid.T) c04Case {
 		genUnset(t, &c.Cfg) // short constructors and parameters left to the library's defaults
 	}
 	c.Samples = genSamples(t, c.Cfg, 400)
+	if (c.Cfg.Windowed || c.Cfg.Outer2 == "windowed") && rapid.IntRange(0, 9).Draw(t, "bulk") == 0 {
+		c.BulkN = rapid.SampledFrom([]int{32767, 65534, 65535, 65535, 65536, 131071}).Draw(t, "bulkN")
+		for i := range c.Samples {
+			if i < 3 {
+				c.Samples[i].Rel, c.Samples[i].Inf = "", 100000 // the sample right after the stretch is ready to close the window
+			}
+		}
+	}
 	return c
 }
 
@@ -86,6 +97,11 @@ func runC04(_ *testing.T, c c04Case) kit.Outcome {
 	maxInf := 0
 	var sawZero, sawDrop, sawSat bool
 	changes := 0
+	for j := 0; j < c.BulkN; j++ {
+		if p := safeSample(b, Sample{RTT: 1000 + int64(j%7)}, 1); p != nil {
+			return kit.Viol(c.Cfg.Algo+":panic", "quiet sample %d of %d panicked: %v", j, c.BulkN, p)
+		}
+	}
 	for i, s := range c.Samples {
 		before := b.Outer.EstimatedLimit()
 		inf := s.inflight(before)
